@@ -992,7 +992,34 @@ package ircserver
 //@     invariant forall x robust.Id :: x in i.sessions ==> (exists k int :: 0 <= k && k < len(sessions) && snapId(sessions[k]) == x)
 //@     invariant forall a int, b int {sessions[a], sessions[b]} :: 0 <= a && a < b && b < len(sessions) ==> snapId(sessions[a]) != snapId(sessions[b])
 //@   assert@call proto.Marshal#0 : same: sameslice(snapshot.Sessions, sessions)
-//@   assert@call proto.Marshal#0 : complete0: forall x robust.Id :: x in i.sessions ==> (exists k int :: 0 <= k && k < len(sessions) && snapId(sessions[k]) == x)
+//@   assert@call proto.Marshal#0 : sessions-complete: forall x robust.Id :: x in i.sessions ==> (exists k int :: 0 <= k && k < len(sessions) && snapId(sessions[k]) == x)
 //@   assert@call proto.Marshal#0 : sessions: wfSnapSessions(addrof(snapshot))
-//@   assert@call proto.Marshal#0 : sessions-repr: forall k int :: 0 <= k && k < len(snapshot.Sessions) ==> sessEntryOK(snapshot.Sessions[k], i)
-//@   assert@call proto.Marshal#0 : sessions-complete: forall x robust.Id :: x in i.sessions ==> (exists k int :: 0 <= k && k < len(snapshot.Sessions) && snapId(snapshot.Sessions[k]) == x)
+//@   assert@call proto.Marshal#0 : sessions-repr: forall k int :: 0 <= k && k < len(sessions) ==> sessEntryOK(sessions[k], i)
+
+// The network configuration inside a snapshot.
+//@ pred cfgRepr(p *pb.Snapshot_Config, c *config.Network) = p != nil && p.Irc != nil && p.Revision == c.Revision && c.SessionExpiration == parsedur(p.SessionExpiration) && c.PostMessageCooloff == parsedur(p.PostMessageCooloff) && p.TrustedBridges == c.TrustedBridges && p.CaptchaUrl == c.CaptchaURL && len(c.CaptchaHMACSecret) == hexlen(p.CaptchaHmacSecret) && (forall k int :: 0 <= k && k < len(c.CaptchaHMACSecret) ==> c.CaptchaHMACSecret[k] == hexbyte(p.CaptchaHmacSecret, k)) && p.CaptchaRequiredForLogin == c.CaptchaRequiredForLogin && p.MaxSessions == c.MaxSessions && p.MaxChannels == c.MaxChannels && (p.Banned != nil ==> c.Banned == p.Banned) && (p.Banned == nil ==> c.Banned != nil && (forall a string :: !(a in c.Banned))) && len(p.Irc.Operators) == len(c.IRC.Operators) && (forall k int :: 0 <= k && k < len(p.Irc.Operators) ==> p.Irc.Operators[k] != nil && p.Irc.Operators[k].Name == c.IRC.Operators[k].Name && p.Irc.Operators[k].Password == c.IRC.Operators[k].Password) && len(p.Irc.Services) == len(c.IRC.Services) && (forall k int :: 0 <= k && k < len(p.Irc.Services) ==> p.Irc.Services[k] != nil && p.Irc.Services[k].Password == c.IRC.Services[k].Password)
+//@ pred cfgTextOK(p *pb.Snapshot_Config) = parseok(p.SessionExpiration) && parseok(p.PostMessageCooloff) && hexok(p.CaptchaHmacSecret)
+
+//@ func IRCServer.Marshal
+//@   requires config: i.Config.Banned != nil
+//@   assert@call proto.Marshal#0 : config: snapshot.Config == config && cfgRepr(config, addrof(i.Config)) && cfgTextOK(config)
+//@   assert@call proto.Marshal#0 : top: snapshot.LastProcessed != nil && snapshot.LastProcessed.Id == i.lastProcessed.Id && snapshot.LastProcessed.Reply == i.lastProcessed.Reply && snapshot.LastIncludedIndex == lastIncludedIndex
+//@   loop range i.Config.IRC.Operators
+//@     invariant 0 - 1 <= rangeindex && rangeindex < len(i.Config.IRC.Operators) && len(operators) == rangeindex + 1 && (forall k int :: 0 <= k && k < len(operators) ==> operators[k] != nil && allocated(operators[k]) && operators[k].Name == i.Config.IRC.Operators[k].Name && operators[k].Password == i.Config.IRC.Operators[k].Password)
+//@   loop range i.Config.IRC.Services
+//@     invariant len(operators) == len(i.Config.IRC.Operators) && (forall k int :: 0 <= k && k < len(operators) ==> operators[k] != nil && allocated(operators[k]) && operators[k].Name == i.Config.IRC.Operators[k].Name && operators[k].Password == i.Config.IRC.Operators[k].Password)
+//@     invariant 0 - 1 <= rangeindex && rangeindex < len(i.Config.IRC.Services) && len(services) == rangeindex + 1 && (forall k int :: 0 <= k && k < len(services) ==> services[k] != nil && allocated(services[k]) && services[k].Password == i.Config.IRC.Services[k].Password)
+
+//@ pred wfSnapTop(S *pb.Snapshot) = S.LastProcessed != nil && S.Config != nil && S.Config.Irc != nil && cfgTextOK(S.Config) && (forall k int :: 0 <= k && k < len(S.Config.Irc.Operators) ==> S.Config.Irc.Operators[k] != nil) && (forall k int :: 0 <= k && k < len(S.Config.Irc.Services) ==> S.Config.Irc.Services[k] != nil)
+//@ func IRCServer.Marshal
+//@   assert@call proto.Marshal#0 : top-shape: wfSnapTop(addrof(snapshot))
+//@ func IRCServer.Unmarshal
+//@   assume@after proto.Unmarshal#0 : written-by-marshal-top: wfSnapTop(addrof(snapshot))
+//@   loopinv top: wfSnapTop(addrof(snapshot))
+//@   assert@return snapshot.LastIncludedIndex, nil#0 : config: cfgRepr(snapshot.Config, addrof(i.Config))
+//@   assert@return snapshot.LastIncludedIndex, nil#0 : top: i.lastProcessed.Id == snapshot.LastProcessed.Id && i.lastProcessed.Reply == snapshot.LastProcessed.Reply && callarg0 == snapshot.LastIncludedIndex && callarg1 == nil
+//@   loop range snapshot.Config.Irc.Operators
+//@     invariant 0 - 1 <= rangeindex && rangeindex < len(snapshot.Config.Irc.Operators) && len(operators) == len(snapshot.Config.Irc.Operators) && (forall k int :: 0 <= k && k <= rangeindex ==> operators[k].Name == snapshot.Config.Irc.Operators[k].Name && operators[k].Password == snapshot.Config.Irc.Operators[k].Password)
+//@   loop range snapshot.Config.Irc.Services
+//@     invariant len(operators) == len(snapshot.Config.Irc.Operators) && (forall k int :: 0 <= k && k < len(operators) ==> operators[k].Name == snapshot.Config.Irc.Operators[k].Name && operators[k].Password == snapshot.Config.Irc.Operators[k].Password)
+//@     invariant 0 - 1 <= rangeindex && rangeindex < len(snapshot.Config.Irc.Services) && len(services) == len(snapshot.Config.Irc.Services) && (forall k int :: 0 <= k && k <= rangeindex ==> services[k].Password == snapshot.Config.Irc.Services[k].Password)
